@@ -94,15 +94,19 @@ func runTraced(own func(sig string) bool) func(w wl.Workload) common.Result {
 		cmd.Stderr = &stderr
 		if err := cmd.Run(); err != nil {
 			// the workload itself failed (or strace is unavailable): not a verdict of this property
-			panic(fmt.Sprintf("traced workload failed: %v: %s", err, stderr.String()))
+			common.Inconclusive("traced workload failed: %v: %s", err, stderr.String())
 		}
 		calls, err := Parse(tf)
 		if err != nil {
-			panic(fmt.Sprintf("parsing trace: %v", err))
+			common.Inconclusive("parsing trace: %v", err)
 		}
 		v, st := Check(calls, dir, w.SegSize)
 		if st.StoreLogsOK == 0 && st.Syscalls < 10 {
-			panic("trace is empty: strace produced no usable output")
+			raw, _ := os.ReadFile(tf)
+			if len(raw) > 1500 {
+				raw = raw[:1500]
+			}
+			common.Inconclusive("trace is empty: strace produced no usable output (%d syscalls parsed); stderr: %s; trace head: %s", st.Syscalls, stderr.String(), raw)
 		}
 		res.Sub = 1
 		res.NonTrivial = st.FirstCommitNewSegment && st.Rotation && st.Deletion && st.CommitIntoOpenedFile
